@@ -565,10 +565,24 @@ func cliCarries(text string, it cliItem) string {
 		return "status"
 	case !strings.Contains(text, cliReasonStr(it.reason)):
 		return "reason"
-	case !strings.Contains(text, it.msg):
+	case !cliCarriesMsg(text, it.msg):
 		return "message"
 	}
 	return ""
+}
+
+// cliCarriesMsg: the text holds the server's message, verbatim or in Go's quoted form (an error that renders
+// the message with %q or %+q still carries it: the escaping is injective).
+func cliCarriesMsg(text, msg string) bool {
+	if strings.Contains(text, msg) {
+		return true
+	}
+	for _, q := range []string{strconv.Quote(msg), strconv.QuoteToASCII(msg)} {
+		if strings.Contains(text, q[1:len(q)-1]) {
+			return true
+		}
+	}
+	return false
 }
 
 // cliCarried lists the failed items of the received response that the error text carries.
@@ -2623,12 +2637,12 @@ func runResp(ctx *Ctx) {
 func init() {
 	register(&Engine{
 		Name: "nego",
-		Rule: "every non-empty subset of {1.0..1.4} on the client x every subset on a real kmipserver.BatchExecutor (31 x 32, argument order shuffled, configuration also spelled with several WithKmipVersions calls and duplicates, server never configured, default client) x {not enforced, enforced}; scripted servers over net.Pipe and in-process: DiscoverVersions answered with every subset in random order, with versions not offered and duplicates, empty, OperationNotSupported, other failures, wrong counts, missing / foreign / opaque payload, closed connection; client sets and answers with major versions other than 1 and negative components; after every successful Dial a fixed program: single request, batch of 3 with OnBatchErr, connection killed + request (reconnect), clone + request, Close + request, batch of 2 on the clone, clone of the clone with all connections killed, clone of the closed client — while the server would answer a renewed DiscoverVersions differently; observed: Version() and the header (version, count) of every request as decoded by the server; the BatchExecutor alone: SetSupportedProtocolVersions called 0..3 times, hand-built DiscoverVersions requests with header 1.0..1.4 / 2.0 / 0.9 and the empty, full, partial, duplicated, foreign lists, answer taken through the wire encoding; distinct = distinct line",
+		Rule: "every non-empty subset of {1.0..1.4} on the client x every subset on a real kmipserver.BatchExecutor (31 x 32, argument order shuffled, configuration also spelled with several WithKmipVersions calls and duplicates, server never configured, default client) x {not enforced, enforced} x connect entry point {DialContext; DialClusterContext with and without WithRetryTimeout (every pair in the thorough tier, a sample in the quick one)}; scripted servers over net.Pipe and in-process: DiscoverVersions answered with every subset in random order, with versions not offered and duplicates, empty, OperationNotSupported, other failures, wrong counts, missing / foreign / opaque payload, closed connection; client sets and answers with major versions other than 1 and negative components; after every successful Dial a fixed program: single request, batch of 3 with OnBatchErr, connection killed + request (reconnect), clone + request, Close + request, batch of 2 on the clone, clone of the clone with all connections killed, clone of the closed client — while the server would answer a renewed DiscoverVersions differently; observed: Version() and the header (version, count) of every request as decoded by the server; the BatchExecutor alone: SetSupportedProtocolVersions called 0..3 times, hand-built DiscoverVersions requests with header 1.0..1.4 / 2.0 / 0.9 and the empty, full, partial, duplicated, foreign lists, answer taken through the wire encoding; distinct = distinct line",
 		Run:  runNego,
 	})
 	register(&Engine{
 		Name: "resp",
 		Run:  runResp,
-		Rule: "abstract response shapes: header count in {0,1,2,-1} (plus, on conforming items, n+-256, n+-65536, n+-2^31, 2^31-1, -2^31, 3, 5, 255, 257) x item count in {0,1,2,3,5,6,7} x per item operation in {requested, other registered, unknown code, 0} x status in {Success, Failed, Pending, Undone, 7} x reason in {0, registered, unknown} x payload in {none, response type of the requested operation, of another operation, UnknownPayload, request type (in-process only)}; one-item shapes exhaustively, larger ones sampled (two-item shapes exhaustively for the two-operation batch in the thorough tier; batches of 6 conforming except at one or two random positions, every position covered); for Activate/Get/Destroy typed Exec, Request (registered and unregistered operation), Batch, Then-chain, BatchOpt, EVERY fluent builder of *kmipclient.Client found by reflection (in-process, one-item shapes exhaustively), the composite Signer/Sign helper (scripted 3-5 exchange servers: announced algorithm x key material kind x id mode, every exchange position x every non-conforming answer, attribute variations incl. values of foreign Go types in-process, caller options, signature lengths, random combinations) and the discovery exchange of Dial; clients enforcing 1.4, 1.0 and 1.2; each shape both sent over net.Pipe by a scripted server and fabricated by a client middleware; a server answering with a request message; the header of every request sent is checked (C13); registries swept 0..0x120; distinct = distinct line",
+		Rule: "abstract response shapes: header count in {0,1,2,-1} (plus, on conforming items, n+-256, n+-65536, n+-2^31, 2^31-1, -2^31, 3, 5, 255, 257) x item count in {0,1,2,3,5,6,7} x per item operation in {requested, other registered, unknown code, 0} x status in {Success, Failed, Pending, Undone, 7} x reason in {0, registered, unknown} x payload in {none, response type of the requested operation, of another operation, UnknownPayload, request type (in-process only)}; one-item shapes exhaustively, larger ones sampled (two-item shapes exhaustively for the two-operation batch in the thorough tier; batches of 6 conforming except at one or two random positions, every position covered); for Activate/Get/Destroy typed Exec, Request (registered and unregistered operation), Batch, Then-chain, BatchOpt, EVERY fluent builder of *kmipclient.Client found by reflection (in-process, one-item shapes exhaustively), the composite Signer/Sign helper (scripted 3-5 exchange servers: announced algorithm x key material kind x id mode, every exchange position x every non-conforming answer, attribute variations incl. values of foreign Go types in-process, caller options, signature lengths, random combinations) and the discovery exchange of Dial through both connect entry points (DialContext, DialClusterContext with and without WithRetryTimeout; header counts also 257, 65537, -255, -65535, 2^31-1, -2^31 on a conforming item); result messages with format verbs, quotes, line breaks, non-ASCII, 500 bytes; batches of 6 with 4-6 failed items each carrying its own message; Then-chains forked from a common prefix of 2..9 operations; clients enforcing 1.4, 1.0 and 1.2; each shape both sent over net.Pipe by a scripted server and fabricated by a client middleware; a server answering with a request message; the header of every request sent is checked (C13); registries swept 0..0x120; distinct = distinct line",
 	})
 }
